@@ -166,9 +166,34 @@ def _run_abort(case):
       return
     test.abort_from_sig_int()
   sigint = case.get('mode') == 'sigint'
-  out = sched_exec.run_case(prog, choose=c04._chooser(dict(case, ks=[k]) if sigint else case),
-                            aux=[] if sigint else [('ab1', aborter)], max_steps=40000)
-  toks = []
+  refused = []
+
+  def overlapper(env):
+    # between the operator's two Ctrl-Cs another thread tries to execute the same (still running) Test: refused,
+    # and without any effect on the run
+    s = env['sched']
+    test = env['test']
+    s.block(lambda: (s.step >= (k + case['k2']) // 2 and getattr(test, '_executor', None) is not None) or
+            ('execute-returned',) in env['log'], None, 'overlap-trigger')
+    if ('execute-returned',) in env['log']:
+      return
+    try:
+      test.execute()
+      refused.append('sequential')      # the first run had just ended: a legitimate second run
+    except test_descriptor.InvalidTestStateError:
+      pass
+    except Exception as e:  # pylint: disable=broad-except
+      refused.append('R:overlapping-execute-raised:' + type(e).__name__)
+  if sigint and case.get('k2') is not None:
+    out = sched_exec.run_case(prog, choose=c04._chooser(dict(case, ks=[k, case['k2']])), aux=[('ov', overlapper)],
+                              max_steps=40000)
+  else:
+    out = sched_exec.run_case(prog, choose=c04._chooser(dict(case, ks=[k]) if sigint else case),
+                              aux=[] if sigint else [('ab1', aborter)], max_steps=40000)
+  if 'sequential' in refused:
+    test_descriptor.Test.TEST_INSTANCES.clear()
+    return {'abort': ['R:second-execute-was-sequential']}
+  toks = list(refused)
   if sigint and isinstance(out['exc'], KeyboardInterrupt) and not out['recs'] and not (out['deadlock'] or out['stuck']):
     # the SIGINT landed outside execute()'s wait (start-up block / output stage): KeyboardInterrupt escapes without
     # finalisation or callbacks - the known findings of C04, seen through C09's contract
@@ -281,6 +306,10 @@ def gen_cases(rng, tier):
       cases.append({'kind': 'abort', 'prog': name, 'k': k, 'callbacks': [False, k % 3 == 0]})
       if k % 2 == 0:
         cases.append({'kind': 'abort', 'prog': name, 'k': k, 'callbacks': [False, k % 3 == 0], 'mode': 'sigint'})
+      if k % 4 == 0 and name in ('group', 'plugs', 'nested'):
+        # two Ctrl-Cs with an overlapping execute() attempt of another thread in between
+        cases.append({'kind': 'abort', 'prog': name, 'k': k, 'k2': k + [20, 60, 120][(k // 4) % 3], 'callbacks': [False],
+                      'mode': 'sigint'})
   for i in range(60 if tier == 'quick' else 1500):
     r = rng.derive('race%d' % i)
     cases.append({'kind': 'race', 'threads': r.choice([2, 2, 3]), 'reps': r.choice([1, 1, 2]), 'phases': r.choice([1, 2]),
